@@ -323,6 +323,15 @@ def translate_apiflow(ctx) -> None:
     rebound = sorted({t.id for n in ast.walk(tree) for t in (n.targets if isinstance(n, ast.Assign) else [])
                       if isinstance(t, ast.Name) and t.id in API_FUNCS}
                      | {n.name for n in tree.body if isinstance(n, ast.FunctionDef) and n.name in API_FUNCS})
+    # the decorator around every API function, statement by statement (docstrings dropped)
+    import copy
+
+    wrapper = copy.deepcopy(api["_reissue_warnings"])
+    for node in ast.walk(wrapper):
+        if isinstance(node, (ast.FunctionDef, ast.AsyncFunctionDef)) and node.body and isinstance(node.body[0], ast.Expr) \
+                and isinstance(getattr(node.body[0], "value", None), ast.Constant) and isinstance(node.body[0].value.value, str):
+            node.body = node.body[1:] or [ast.Pass()]
+    out.append(f"def reissueBody : List String := {_ls(ast.unparse(wrapper).splitlines())}\n")
     out.append(f"def cliImports : List String := {_ls(sorted(imports))}\n")
     out.append(f"def cliRebound : List String := {_ls(rebound)}\n")
     out.append("end Iodata.Gen.ApiFlow\n")
